@@ -474,6 +474,8 @@ def run(chk):
     from . import c03, c06
     c03.rule_start(chk)
     c03.rule_once(chk)
+    common.rule_instance_state(chk, "C02", [("_action", "Action")])
+    common.rule_defaults(chk, "C02", modules=("_action", "_message", "_output"))
     c06.rule_once(chk)  # a serialized position continued twice duplicates every level below it
     from . import c08
     c08.rule_fanout(chk)   # what a destination that accepted every message observes while others fail
